@@ -54,6 +54,9 @@ type nodeBasedBalancer struct {
 
 	actionCh  chan Action
 	triggerCh chan struct{}
+
+	// shards for which a swap was already proposed in the current round
+	roundSwapped map[int64]struct{}
 }
 
 func (r *nodeBasedBalancer) Action() <-chan Action {
@@ -78,6 +81,7 @@ func (r *nodeBasedBalancer) quarantineNodes() *linkedhashset.Set[string] {
 
 func (r *nodeBasedBalancer) rebalanceEnsemble() {
 	r.checkQuarantineNodes()
+	r.roundSwapped = map[int64]struct{}{}
 
 	swapGroup := &sync.WaitGroup{}
 	currentStatus := r.statusResource.Load()
@@ -204,6 +208,10 @@ func (r *nodeBasedBalancer) swapShard(
 	if nsc, exist = r.configResource.NamespaceConfig(candidateShard.Namespace); !exist {
 		return false, nil
 	}
+	if _, done := r.roundSwapped[candidateShard.ShardID]; done {
+		// the ratio snapshot still holds the ensemble as it was before the round
+		return false, nil
+	}
 	policies := nsc.Policies
 	sContext := &single.Context{
 		Candidates:         candidates,
@@ -237,6 +245,7 @@ func (r *nodeBasedBalancer) swapShard(
 		return false, errors.New("target node does not exist")
 	}
 
+	r.roundSwapped[candidateShard.ShardID] = struct{}{}
 	swapGroup.Add(1)
 	r.actionCh <- &SwapNodeAction{
 		Shard:  candidateShard.ShardID,
